@@ -864,6 +864,64 @@ def generate_fns_o(repo):
             defs.append(f"def {name} : {OUT_TYPES[name]} := {OUT_STUB[name]}   -- stub: outside the translator's subset on this tree\n")
             wraps.append(f"def canonical.{name}? : Option ({OUT_TYPES[name].replace('UriElement', 'fnO.UriElement')}) := none   -- outside the translator's subset on this tree")
             items[key] = "unreadable"
+    # src/canonical.rs: canonicalize_query_to_string (plain String result; HashMap entries in representation order, then sorted)
+    CQ_TY = "Nat → List (Bytes × List Bytes) → Outcome Bytes"
+    textq = None
+    try:
+        qctx = {"enums": {}, "pure": {}, "monadic": {}, "regexes": {}, "consts": ctx["consts"]}
+        sg = fn_sig(toks, "canonicalize_query_to_string")
+        if sg is not None:
+            textq, ty = rustout.translate_result_fn("canonicalize_query_to_string", sg[0], sg[1], sg[2], qctx)
+            got = "Nat → " + " → ".join(rustout.lean_ty(t) for t in ty[0]) + " → Outcome " + rustout.lean_ty(ty[1])
+            if got != CQ_TY:
+                if os.environ.get("SRCGEN_DEBUG"):
+                    print("rustout: canonicalize_query_to_string type", got)
+                textq = None
+    except Exception as ex:                                         # noqa
+        if os.environ.get("SRCGEN_DEBUG"):
+            print("rustout: canonicalize_query_to_string", ex)
+        textq = None
+    if textq:
+        defs.append(textq + "\n")
+        wraps.append(f"def canonical.canonicalize_query_to_string? : Option ({CQ_TY}) := some fnO.canonicalize_query_to_string")
+        items["canonical.canonicalize_query_to_string"] = "read"
+    else:
+        defs.append(f"def canonicalize_query_to_string : {CQ_TY} := fun _ _ => .panic \"untranslated\"   -- stub: outside the translator's subset on this tree\n")
+        wraps.append(f"def canonical.canonicalize_query_to_string? : Option ({CQ_TY}) := none   -- outside the translator's subset on this tree")
+        items["canonical.canonicalize_query_to_string"] = "unreadable"
+    # src/canonical.rs: CanonicalRequest::canonical_request (the canonical query string, computed by another function, enters as a parameter)
+    CR_TY = "Nat → Bytes → Bytes → Bytes → Bytes → List (Bytes × List Bytes) → List Bytes → Outcome Bytes"
+    text0 = None
+    try:
+        getters = {}
+        for g, shape in (("request_method", ["&", "self", ".", "request_method"]), ("canonical_path", ["&", "self", ".", "canonical_path"]),
+                         ("canonical_query_string", ["canonicalize_query_to_string", "(", "&", "self", ".", "query_parameters", ")"]),
+                         ("body_sha256", ["&", "self", ".", "body_sha256"])):
+            sg = fn_sig(toks, g)
+            if sg is not None and [t.v for t in sg[0]] == ["&", "self"] and [t.v for t in sg[2]] == shape:
+                getters[g] = "string"
+        if len(getters) == 4:
+            cctx = {"enums": {}, "pure": {}, "monadic": {}, "regexes": {}, "consts": {}, "self_getters": getters, "self_fields": {"headers": "map"}}
+            sg = fn_sig(toks, "canonical_request")
+            if sg is not None:
+                text0, ty = rustout.translate_result_fn("canonical_request", sg[0], sg[1], sg[2], cctx)
+                got = "Nat → " + " → ".join(rustout.lean_ty(t) for t in ty[0]) + " → Outcome " + rustout.lean_ty(ty[1])
+                if got != CR_TY:
+                    if os.environ.get("SRCGEN_DEBUG"):
+                        print("rustout: canonical_request type", got)
+                    text0 = None
+    except Exception as ex:                                         # noqa
+        if os.environ.get("SRCGEN_DEBUG"):
+            print("rustout: canonical_request", ex)
+        text0 = None
+    if text0:
+        defs.append(text0 + "\n")
+        wraps.append(f"def canonical.canonical_request? : Option ({CR_TY}) := some fnO.canonical_request")
+        items["canonical.canonical_request"] = "read"
+    else:
+        defs.append(f"def canonical_request : {CR_TY} := fun _ _ _ _ _ _ _ => .panic \"untranslated\"   -- stub: outside the translator's subset on this tree\n")
+        wraps.append(f"def canonical.canonical_request? : Option ({CR_TY}) := none   -- outside the translator's subset on this tree")
+        items["canonical.canonical_request"] = "unreadable"
     # src/auth.rs: SigV4Authenticator::prevalidate (a method: the two fields it reads through trivial getters become parameters)
     PRE_TY = "Nat → Bytes → Int → Bytes → Bytes → Int → Int → Outcome Unit"
     text = None
